@@ -72,8 +72,13 @@ class lmhash(uh.TruncateMixin, uh.HasEncodingContext, uh.StaticHandler):
 
     def _calc_checksum(self, secret):
         # check for truncation (during .hash() calls only)
+        # NOTE: the limit is in bytes, so measure the secret the way raw() encodes it
         if self.use_defaults:
-            self._check_truncate_policy(secret)
+            if isinstance(secret, str):
+                encoded = secret.upper().encode(self.encoding or self.default_encoding)
+            else:
+                encoded = secret
+            self._check_truncate_policy(encoded)
 
         return hexlify(self.raw(secret, self.encoding)).decode("ascii")
 
